@@ -127,8 +127,8 @@ PROPS["C07"] = dict(
                "point inside its reported bin with weight prod(bins x width) within 4 d eps; exploration",
     level_note="trusted: the long double model (for T = long double an independent computation of equal precision); "
                "classes judged by the invariants only: heavy zero-width old bin at the boundary, smoothed ratio "
-               "below the smallest normal number of T, denormal-scale data; data whose smoothing overflows T are the "
-               "known finding sig=C07:smoothed-sum-overflows and are scaled into range (counted as excluded_known)",
+               "below the smallest normal number of T, denormal-scale data; data whose smoothing would overflow T are "
+               "generated like any other class since the repair d822058 (label data-near-largest-finite)",
     technique="rapidcheck + libFuzzer over choice tapes; reference model in F-space + invariants over refinement chains, scripted-engine sampling",
     assumptions=ASSUME_COMMON,
 )
